@@ -306,8 +306,10 @@ func checkRuns(p *Program, decl []Call, c compiled, vals []string, stream bool, 
 			sig := runSig("panic-out-of-run", p, stream, errClass(o.Panic))
 			if strings.HasPrefix(sig, "panic-out-of-run") {
 				sig += sfx
-				if es := entryFailSig(p, &ex); es != "" && !ex.mustErr && !ex.mayErr {
-					sig = es // panic (Invoke) and recovered panic (streaming) are one class
+				if !ex.mustErr && !ex.mayErr && entryFailSig(p, &ex, -1) != "" {
+					if es := entryFailSig(p, &ex, culpritItem(p, decl, vals, stream, st)); es != "" {
+						sig = es // panic (Invoke) and recovered panic (streaming) are one class
+					}
 				}
 			}
 			add(mk(sig,
@@ -331,8 +333,10 @@ func checkRuns(p *Program, decl []Call, c compiled, vals []string, stream bool, 
 			} else {
 				good = false
 				sig := runSig("unexpected-run-error", p, stream, errClass(o.Err.Error()))
-				if es := entryFailSig(p, &ex); es != "" && strings.HasPrefix(sig, "unexpected-run-error") {
-					sig = es
+				if strings.HasPrefix(sig, "unexpected-run-error") && entryFailSig(p, &ex, -1) != "" {
+					if es := entryFailSig(p, &ex, culpritItem(p, decl, vals, stream, st)); es != "" {
+						sig = es
+					}
 				}
 				add(mk(sig,
 					fmt.Sprintf("the run failed: %s; the model expects successor input %s", normMsg(o.Err.Error()), render(ex.model))))
@@ -414,10 +418,13 @@ func blame(p *Program, obs, model reflect.Value) (sig, what string) {
 
 // entryFailSig classifies a run that fails although every mapped value fits, by what the set does below
 // map entries whose values are structs / struct pointers ("" if it does nothing there).
-func entryFailSig(p *Program, ex *expectation) string {
+func entryFailSig(p *Program, ex *expectation, culprit int) string {
 	groups := map[string]int{}
 	first := ""
 	for i, it := range p.Items {
+		if culprit >= 0 && i != culprit {
+			continue
+		}
 		kind, entry, below := mapEntryClass(rootTypes[p.Dst], it.To)
 		if kind != "" && below == 0 && ex.nilItem[i] {
 			return kind + "-valued-map-entry/nil-value-fails"
@@ -438,6 +445,9 @@ func entryFailSig(p *Program, ex *expectation) string {
 	if first != "" {
 		// what lies between the entry and the leaf, e.g. ptr-struct for MM.k.PM.Q.S
 		for i, it := range p.Items {
+			if culprit >= 0 && i != culprit {
+				continue
+			}
 			if kind, entry, below := mapEntryClass(rootTypes[p.Dst], it.To); kind == first && below >= 1 {
 				ks := strings.Split(p.info(i).ToChain, ">")
 				mid := ks[len(entry)+1 : len(ks)-1]
@@ -613,6 +623,73 @@ func subProgram(p *Program, decl []Call, a, b int) (*Program, []Call) {
 		}
 	}
 	return q, d
+}
+
+// subProgramOf restricts a program and a declaration order to some of its items.
+func subProgramOf(p *Program, decl []Call, keep []int) (*Program, []Call) {
+	q := &Program{Shape: p.Shape, Src: p.Src, Dst: p.Dst}
+	idx := map[int]int{}
+	for n, i := range keep {
+		idx[i] = n
+		q.Items = append(q.Items, p.Items[i])
+	}
+	var d []Call
+	for _, c := range decl {
+		nc := Call{Static: c.Static, Slot: c.Slot}
+		for _, i := range c.Items {
+			if n, ok := idx[i]; ok {
+				nc.Items = append(nc.Items, n)
+			}
+		}
+		if len(nc.Items) > 0 {
+			d = append(d, nc)
+		}
+	}
+	return q, d
+}
+
+// culpritItem: when a set of several mappings fails on fitting values, which mapping fails on its own (a
+// static value is tried together with the first dynamic mapping, which must pass alone)? -1: none does, the
+// failure needs the combination.
+func culpritItem(p *Program, decl []Call, vals []string, stream bool, st *stats) int {
+	if len(p.Items) < 2 {
+		return 0
+	}
+	fails := func(keep []int) bool {
+		q, qd := subProgramOf(p, decl, keep)
+		c, err, pv := compileDecl(q, qd, false, st)
+		if err != nil || pv != "" {
+			return false
+		}
+		o := c.run(stream, gensFor(q, vals), q.Src)
+		st.runs++
+		return o.Panic != "" || o.Err != nil
+	}
+	firstDyn := -1
+	for i, it := range p.Items {
+		if it.Src != slotStatic {
+			firstDyn = i
+			break
+		}
+	}
+	for i, it := range p.Items {
+		if it.Src != slotStatic {
+			if fails([]int{i}) {
+				return i
+			}
+			continue
+		}
+		if firstDyn >= 0 && !fails([]int{firstDyn}) {
+			keep := []int{firstDyn, i}
+			if i < firstDyn {
+				keep = []int{i, firstDyn}
+			}
+			if fails(keep) {
+				return i
+			}
+		}
+	}
+	return -1
 }
 
 // evalProgram is the whole judgement of one canonical program.
